@@ -1,5 +1,5 @@
 (* Dispatch table of the extracted model executable: one command per modelled function. *)
-From FV Require Import Base.Prelude Model.ScriptBlocks Model.MathFuncs gen.MathTable Cpp.IR Cpp.Exec Model.KindModel Model.Arith.
+From FV Require Import Base.Prelude Model.ScriptBlocks Model.MathFuncs gen.MathTable Cpp.IR Cpp.Exec Model.KindModel Model.Arith Model.LocalDataset.
 
 Definition dispatch (cmd : string) (arg : sexp) : sexp :=
   if String.eqb cmd "c15.gen" then ScriptBlocks.run_gen arg
@@ -17,4 +17,5 @@ Definition dispatch (cmd : string) (arg : sexp) : sexp :=
   else if String.eqb cmd "c11.tokens" then WordSubst.run_tokens arg
   else if String.eqb cmd "c11.call" then WordSubst.run_call arg
   else if String.eqb cmd "c11.finder" then WordSubst.run_finder arg
+  else if String.eqb cmd "c17.execute" then LocalDataset.run_execute arg
   else s_tag "unknown-command" [SAtom cmd].
